@@ -163,6 +163,9 @@ def enumerate_configs(tier: str, impls=("casadi", "numpy"), flags_mode="none"):
             cfgs.append(replace(b, impl=impl, init="user"))
             cfgs.append(replace(b, impl=impl, engine_arg="current"))
             cfgs.append(replace(b, impl=impl, init="user", engine_arg="current"))
+            cfgs.append(replace(b, impl=impl, init="partial"))
+            if impl == "numpy":
+                cfgs.append(replace(b, impl=impl, init="user0"))
     if tier == "thorough":
         extra = []
         for c in cfgs:
@@ -332,18 +335,28 @@ class World:
         self.current = self.CUR
         # caller-supplied containers (never registered as owned)
         self.init_conditions = None
-        if cfg.init == "user":
+        if cfg.init in ("user", "user0"):
             self.init_conditions = {}
             for o in self.links:
-                d = {"rho": self._state("rho", o, caller=True), "v": self._state("v", o, caller=True)}
+                # (the caller's dictionaries list the variables in an order of their own)
+                d = {}
                 if o.cls == LINKVSL:
                     d["v_ctrl"] = TV(E.V("v_ctrl", o.ident + ".vsl"), 1, False, "caller array v_ctrl")
+                d["v"] = self._state("v", o, caller=True)
+                d["rho"] = self._state("rho", o, caller=True)
                 self.init_conditions[o] = d
             if self.ORG is not None and cfg.u_origin != "Origin":
-                d = {k: self._scalar_var(k, self.ORG, caller=True) for k in ("w", "d", "r", "v_ctrl", "q")}
+                d = {k: self._scalar_var(k, self.ORG, caller=True) for k in ("q", "v_ctrl", "r", "d", "w")}
                 self.init_conditions[self.ORG] = d
             if self.DST is not None and cfg.d_dest == "CongestedDestination":
                 self.init_conditions[self.DST] = {"d": self._scalar_var("d", self.DST, caller=True)}
+        elif cfg.init == "partial":
+            # the caller supplies only some of the variables; the engine creates the others
+            self.init_conditions = {}
+            for o in self.links:
+                self.init_conditions[o] = {"v": self._state("v", o, caller=True)}
+            if self.ORG is not None and cfg.u_origin != "Origin":
+                self.init_conditions[self.ORG] = {"d": self._scalar_var("d", self.ORG, caller=True)}
         self.other = {
             "T": TV(E.S("T"), 0, False, "parameter T"),
             "tau": TV(E.S("tau"), 0, False, "parameter tau"),
@@ -360,6 +373,9 @@ class World:
                   ("caller array " if caller else "state ") + f"{var} of {o.ident}")
 
     def _scalar_var(self, var, o: Obj, caller=False):
+        if caller and self.cfg.init == "user0":
+            # a numpy scalar / 0-d array (e.g. `w_trajectory[k]`)
+            return TV(E.S(f"{o.ident}.{var}"), 0, False, f"caller scalar {var} of {o.ident}")
         return TV(E.S(f"{o.ident}.{var}"), 1, False,
                   ("caller array " if caller else "variable ") + f"{var} of {o.ident}")
 
@@ -392,6 +408,12 @@ class World:
         return None
 
     def on_setattr(self, it, o, attr, v, node):
+        if o.kind in ("link", "origin", "dest") and attr in ("states", "next_states", "actions", "disturbances") \
+                and isinstance(v, dict) and id(v) not in self.owned:
+            it.event("state-dict-aliased", node,
+                     f"`{short(node, 60)}` keeps a dictionary supplied by the caller as `{attr}` of {o.ident}: handing "
+                     "an element's own next_states back as initial conditions makes states and next_states one "
+                     "object, so stepping overwrites the current state while other elements still read it")
         if o.kind in ("link", "origin", "dest") and attr in (
             "lam", "L", "rho_max", "rho_crit", "v_free", "a", "turnrate", "C", "N",
             "flow_eq_type", "alpha", "vsl", "name",
